@@ -93,7 +93,7 @@ def make_case(family, n, seed):
     N = N / np.linalg.norm(N, axis=1)[:, None]
     if family != "generic" and seed % 2 == 1:
         N = N @ rotation(nrng).T
-    scale = [1.0, 1.0, 1e-5, 1e-3, 1e3, 0.37][seed % 6]
+    scale = [1.0, 1.0, 1e-5, 1e-3, 1e3, 0.37, 1e5, 1e7, 1e-7][seed % 9]
     return N, E * scale
 
 
